@@ -6,7 +6,6 @@ from __future__ import print_function
 
 import ast
 from   functools                import cached_property, total_ordering
-import itertools
 import os
 
 from   pyflyby._file            import FileText, Filename
@@ -406,8 +405,15 @@ class ModuleHandle(object):
         ast_mod = ast.parse(str(text), str(filename)).body
 
         # First, add members that are explicitly defined in the module
-        members = list(itertools.chain(*[self._member_from_node(n) \
-                                         for n in ast_mod]))
+        members = []
+        for n in ast_mod:
+            if isinstance(n, ast.Delete):
+                # 'del name' at top level: the name is not there to import.
+                deleted = set(t.id for t in n.targets
+                              if isinstance(t, ast.Name))
+                members = [m for m in members if m not in deleted]
+            else:
+                members.extend(self._member_from_node(n))
 
         # If __all__ is defined, try to use it
         all_is_good = False  # pun intended
